@@ -30,6 +30,14 @@ CHECKS = {
     note="State = tuple of member fingerprints (sound for this property: it only observes width and denotation). Widening simplify may over-approximate the object it is applied to. "
          "Trusted: amc/ref/bv.py walker.",
     design="DESIGN.md section 3, C13"),
+ "C19": dict(
+    category="model_checking",
+    technique="bounded exhaustive enumeration of map pairs x configurations on the real merge(); per-location alternative-set membership via independent walker, plus composition with concrete states",
+    text="All pairs of maps with <=2 writes over 7 location kinds x 6 value kinds, with/without path conditions, widening on/off, 3 complexity thresholds: "
+         "for each written location the merged value must be unknown (top/vecw) or its alternatives must contain each input's value under every valuation "
+         "satisfying that input's condition; the same after C >> merged for concrete states C; no location written by neither input appears.",
+    note="Bound: <=2 writes per map; 6 valuations; pointer registers do not overlap. Flags may be unknown. Known finding: overlapping writes inside one input map (KNOWN_FINDINGS.json).",
+    design="DESIGN.md section 3, C19"),
  "C08": dict(
     category="model_checking",
     technique="explicit-state exploration of write/copy/restruct/shift/merge histories on the real MemoryMap against a dict byte-store reference",
